@@ -23,6 +23,7 @@ NoGoalInExcludedCode ==
         /\ SetOf(cur.py_pred_lines) \cap SetOf(cur.excl_lines) = {}
         /\ (~cur.gcov => (cur.g_goals = 0 /\ cur.g_preds = 0 /\ ~cur.g_code_object))
         /\ (~cur.methcov => (cur.meth_goals = 0 /\ cur.meth_preds = 0 /\ ~cur.meth_code_object))
+        /\ (~cur.deepcov => (cur.deep_goals = 0 /\ cur.deep_preds = 0 /\ ~cur.deep_code_object))
         /\ (~cur.fcov => (cur.py_line_goals = <<>> /\ cur.py_pred_lines = <<>> /\ ~cur.f_code_object))
         /\ cur.main_goals = 0 /\ cur.main_preds = 0 /\ cur.tc_goals = 0 /\ cur.tc_preds = 0
 (* every executable line outside excluded code (inside only-cover scopes) is a line goal *)
@@ -30,6 +31,7 @@ AllOtherLinesAreGoals ==
   On => /\ SetOf(cur.want_lines) \subseteq SetOf(cur.py_line_goals)
         /\ (cur.gcov => cur.g_goals = cur.g_exec)
         /\ (cur.methcov => cur.meth_goals = cur.meth_exec)
+        /\ (cur.deepcov => cur.deep_goals = cur.deep_exec)
 (* conformance with the clause semantics of the model (DRIFT only) *)
 ConformPreds == On => SetOf(cur.py_pred_lines) = SetOf(cur.want_pred_lines)
 ConformLines == On => SetOf(cur.py_line_goals) = SetOf(cur.want_lines)
